@@ -17,6 +17,8 @@ THEOREMS = [
     (M, "C01.fluent_lossless", "fluent: under BodyContract (spans increasing, disjoint, inside the text) the walk is lossless"),
     (M, "C01.localizable_is_filter", "the localizable-only view is exactly the entity and junk entries of the full view"),
     (M, "C01.fluent_localizable_is_filter", "fluent: the localizable-only view is the entity and junk entries of the full view"),
+    (M, "C01.val_inside_fmt", "every entity's value span lies inside the entity, except the two degenerate encodings stated per format (inc: absent group (-1,-1); DTD: lone quote (p+1,p))"),
+    (M, "C01.val_inside", "format-independent union of the above"),
     (M, "C01.key_inside", "every entity's key span lies inside its own span (all five regex formats)"),
 ]
 LEVEL_TEXT = ("Lean 4 theorems, for ALL texts with no length bound: the walk of each of the five regex parsers terminates, its entries tile "
@@ -25,8 +27,7 @@ LEVEL_TEXT = ("Lean 4 theorems, for ALL texts with no length bound: the walk of 
               "The theorems are stated over regexes regenerated from /repo on every run, so a regex edit re-proves or breaks them; the "
               "hand-written control-flow model is tied to the Python by bounded-exhaustive token sequences and random texts")
 LEVEL_NOTE = ("trusted: Lean kernel; Rx = CPython re on the audited subset (validated every run); translator; hand-written getNext/walk "
-              "models (correspondence); fluent.syntax body spans are an input with a monitored contract; value spans (ValInside) are "
-              "checked by the oracle only; texts with carriage returns are outside the property")
+              "models (correspondence); fluent.syntax body spans are an input with a monitored contract; texts with carriage returns are outside the property")
 TECHNIQUE = "Lean 4 proof (progress + tiling invariant over regenerated regexes) + differential correspondence with the Python parsers"
 PARTIAL = [
     "fluent_lossless is conditional on the contract of the external fluent.syntax parser (monitored on every run)",
